@@ -46,6 +46,35 @@ PROPS["C02"] = _e1({
                          "same_unit_cases": 50000, "order_independence_checked": 400000}},
 })
 
+PROPS["C03"] = _e1({
+    "rule": "all types with reference unit x all ordered unit pairs x left amounts V u S x right amounts V u S u "
+            "{the amount equal to / cancelling the left one in the other unit, with neighbours}; a+b, a-b, a/b on "
+            "every state; sums are fed back as left operands (depth 2; feedback set: a in {1, 17.4} (quick) / small "
+            "alphabet (thorough), b in {1, 0.37}, every unit). Cross-unit results judged against the exact-rational "
+            "model (bound absolute in |a|+|b'|, so cancellation cannot false-alarm); same-unit results bit-identical "
+            "to the amount type's own operation. " + V_DESC,
+    "floors": {"quick": {"types": 20, "transitions": 3000000, "sensitive": 1000000, "same_unit_cases": 300000,
+                         "value_checked": 2000000}},
+})
+
+PROPS["C08"] = _e1({
+    "rule": "all quantity types (with reference unit, without, single-unit, dimensionless, synthetic, astronomical) x "
+            "all units x amounts a in V u S u R x scalars k in V u S u R: new(a,u), a*u, u*a, accessors, k*q, q*k, q/k; "
+            "every result bit-identical to the amount type's own k*a, a*k, a/k evaluated by the harness (NaN compared as "
+            "NaN), unit unchanged; the subject must panic exactly where the amount operation itself panics (Decimal "
+            "overflow / division by zero). " + V_DESC + "; R = Decimal range edges",
+    "floors": {"quick": {"types": 25, "units": 160, "transitions": 500000, "dimensionless_clause": 1}},
+})
+
+PROPS["C10"] = _e1({
+    "rule": "all types without reference unit (Temperature, SynNoRef; single-unit SynSingle) x all ordered unit pairs x "
+            "(a, b) in (V u S)^2 including a = b: ==, !=, partial_cmp, <, +, -, /; equality iff same unit and equal "
+            "amounts, unordered iff units differ, + - / panic iff units differ and are otherwise bit-identical to the "
+            "amount operation. " + V_DESC,
+    "floors": {"quick": {"types": 3, "single_unit_types": 1, "documented_panics": 20000,
+                         "equal_amounts_in_different_units": 300, "same_unit_ops": 10000, "single_unit_ops": 2000}},
+})
+
 
 def setup():
     t0 = time.time()
